@@ -207,7 +207,8 @@ def _check_main(ctx, rep: Report):
     if not producers:
         raise AnalysisError("C07.W: no producer of __spec_class_initializing__ found")
     for short, site in producers:
-        ok = short == "InitMethod.init"
+        from .base import site_allowed
+        ok = site_allowed(ctx, short, lambda s_: s_ == "InitMethod.init")
         rep.oblige("C07.W", f"producer:{short}", ok)
         if not ok:
             rep.violate(Violation("C07.W", f"C07.W|producer|{short}", f"{short} sets __spec_class_initializing__, which disables the frozen guard outside construction", site, short))
